@@ -21,3 +21,7 @@ package http
 
 //@ func BasicAuthHeader
 //@   ensures  basic: result == "Basic " ++ Base64(id ++ ":" ++ secret)
+
+//@ func EncodeCookieHeader
+//@   ensures  cookie: result == name ++ "=" ++ value ++ JoinDirs(directives, len(directives))
+//@   loop 1 invariant acc: Bld[b] == name ++ "=" ++ value ++ JoinDirs(directives, rangeindex + 1)
